@@ -462,7 +462,14 @@ def _payload(m, lv, bi, b, payload, nprng):
         arr = (nprng.random(shp) + 0.25) * 10.0 ** int(nprng.integers(-3, 4))     # several decades across boxes
         for f, n in enumerate(m.names):
             if n == "volFrac":
-                arr[..., f] = np.round(nprng.random(b.shape) * 4) / 4
+                vf = np.round(nprng.random(b.shape) * 4) / 4
+                # sliver cut cells: a strictly positive fraction far below any "is it zero" tolerance; now and then a
+                # whole box of them
+                sl = nprng.random(b.shape) < 0.12
+                vf[sl] = 10.0 ** -nprng.uniform(8.0, 14.0, int(sl.sum()))
+                if nprng.random() < 0.15:
+                    vf[...] = 2.0 ** -30
+                arr[..., f] = vf
         return arr
     if payload == "thermo":
         # thermochemical state: temp, Y(sp) normalised, a few all-zero cells (covered EB cells)
@@ -511,6 +518,9 @@ def _payload(m, lv, bi, b, payload, nprng):
                         h = h + (7 + 6 * k) * idx[k]
                 t = np.where(h % 11 == 0, np.inf, np.where(h % 11 == 1, -np.inf, t))
                 arr[..., f] = t
+            elif n == "trc":
+                # a trace quantity that is affine in all coordinates: values of 1e-10, never two planes equal
+                arr[..., f] = 1e-10 * (2.0 + sum((0.75 + 0.5 * d) * (grids[d] - m.geo_low[d]) / (m.geo_high[d] - m.geo_low[d]) for d in range(nd)))
             elif n == "near":
                 arr[..., f] = 298.0 * (1.0 + 1e-7 * (nprng.random(b.shape) - 0.5))
             elif n == "lin":
